@@ -11,6 +11,7 @@ TARGETS = {
     "t_hex": dict(variant="asan", srcs=["t_hex.cc"], libs=RC),
     "t_registry": dict(variant="asan", srcs=["t_registry.cc"], libs=RC),
     "t_copy": dict(variant="asan", srcs=["t_copy.cc"], libs=RC),
+    "t_vector": dict(variant="asan", srcs=["t_vector.cc"], libs=RC + " -lpthread"),
     "t_handles": dict(variant="opt", srcs=["t_handles.cc"], libs="-lpthread"),
 }
 
@@ -323,6 +324,26 @@ CHECKS = {
         technique="rapidcheck multi-mesh programs + snapshot equality after copy + invariance of the other meshes' snapshots after every op",
         level_text="Deep-copy and independence checked as an invariant over histories on both sides of every copy, under ASan/LSan.",
         level_note="Hexahedral <-> polyhedral assignment shares the same code path (templated GeometryKernel::operator=) and is exercised only through the tetrahedral case.",
+    ),
+    "C19": dict(
+        kind="rc_program", pre="vector_lattice", target="t_vector", level="exploration",
+        quick=dict(workers=16, max_success=400, max_size=60, len_scale=0.3, timeout=900),
+        thorough=dict(workers=16, max_success=6000, max_size=100, len_scale=0.5, timeout=3600),
+        rule=("part 1 (complete enumeration): ALL ordered pairs of vectors over the lattice {-2..2}^D (unsigned: {0..4}^D) for "
+              "D=2,3,4 and int / unsigned / float / double (2*(5^4+5^6+5^8) pairs per scalar type), every operation named by "
+              "the property against its component-wise definition (exact). part 2 (generated): vectors built from a table "
+              "of special floating-point values (+-0, denormals, huge, +-inf, NaN, near-1, perturbed) and small integers, "
+              "all pairs among up to 6 vectors x 12 (scalar,dimension) combinations; tetrahedral (Vec3d and Vec3f) and "
+              "hexahedral meshes with generated positions: vector, length, barycenter(edge/face/cell), halfface normal, "
+              "opposite normals, NormalAttrib face and vertex normals against the formulas on brute-force vertex sets. "
+              "Tolerance: component-wise + - * / exact; accumulations 4 eps * sum of magnitudes; norms / normalisation 8 "
+              "eps; geometry 16 eps * scale. non-trivial = a case with >=2 vectors containing a special value, or a mesh "
+              "entity checked; distinct = distinct program hash"),
+        assumptions=["normals of nearly degenerate faces (area < 1% of the squared coordinate magnitude) are not compared",
+                     "apply() reads an uninitialised temporary and is not named by the property: left out"],
+        technique="complete lattice enumeration + rapidcheck special-value vectors and generated meshes against component-wise reference formulas",
+        level_text="Exhaustive on a small integer lattice for all four scalar types; generated special floating-point values; geometric queries on generated meshes.",
+        level_note="Floating-point comparisons use the stated tolerances.",
     ),
 }
 
